@@ -35,6 +35,9 @@ SHARD_TIMEOUT = {"quick": 900, "thorough": 5400}
 CHUNK = {"quick": 4, "thorough": 8}
 
 SKIP_KINDS = {"toggle_cached", "clear_all_cells"}
+EDIT_PATH = [("P.k", "a"), ("Ch.r", "d"), ("Q.s", "e"), ("qobj", "f"), ("m.g", "gg"), ("m.h", "hh"), ("g in Ch", "i"),
+             ("g in P", "gg"), ("h in P", "hh"), ("P.a", "b"), ("Ch.cc", "c"), ("Q.qc", "f"), ("P.Ch", "d"),
+             ("rename Ch", "l"), ("del Q", "e"), ("rename Q", "e"), ("P.ua", "a")]
 
 
 def gen_cases(tier, seed):
@@ -44,13 +47,15 @@ def gen_cases(tier, seed):
         yield {"id": "g%d" % i, "kind": "random", "seed": env.derive_seed(seed, ID, i), "k": 1 + i % kmax,
                "nedits": 2 + i % 7, "itemspaces": i % 3 == 0, "toggle": i % 2 == 1}
     # the directed matrix of C02 with its two nested intermediates per dependency path as the varied cells
-    keys = c02.MATRIX_KEYS if tier == "thorough" else c02.MATRIX_KEYS[::4]
+    keys = c02.MATRIX_KEYS if tier == "thorough" else sorted(
+        set(c02.MATRIX_KEYS[::3]) | {k for k in c02.MATRIX_KEYS if "Gc" in k or k.startswith("del ")})
     names = sorted(c02.PATHS)
     for j, k in enumerate(keys):
-        p = names[j % len(names)]
-        yield {"id": "mx%d" % j, "kind": "matrix", "edit": k, "seed": env.derive_seed(seed, ID, "mx", k),
-               "varied": [["P", "u" + p], ["P", "uu" + p], ["P.Ch", "cc"] if j % 2 else ["B", "bc"]],
-               "toggle": j % 2 == 0}
+        # the dependency path whose end the edit touches (else any)
+        p = next((v for frag, v in EDIT_PATH if frag in k), names[j % len(names)])
+        third = ["P.Ch.Gc", "g0"] if "Gc" in k else (["P.Ch", "cc"] if j % 2 else ["B", "bc"])
+        yield {"id": "mx%d" % j, "kind": "matrix", "edit": k, "path": p, "seed": env.derive_seed(seed, ID, "mx", k),
+               "varied": [["P", "u" + p], ["P", "uu" + p], third], "toggle": j % 2 == 0}
 
 
 def expand(case):
@@ -62,6 +67,9 @@ def expand(case):
         ops = c02.matrix_build(False)
         ops.append({"op": "evalall"})
         ops.append(dict(c02.MATRIX_EDITS[case["edit"]], tag=case["edit"]))
+        ops.append({"op": "evalall"})
+        pth = case.get("path", "a")
+        ops.append(dict(c02.F("P", "u" + pth, c02.PATHS[pth] + " + 1000"), tag="formula of the inner intermediate"))
         ops.append({"op": "evalall"})
         ops.append({"op": "toggle_back"})
         v = case["varied"][0]
@@ -152,12 +160,27 @@ def run_assignment(case, mask):
     def V(kind, sig, **d):
         vio.append({"kind": kind, "signature": sig, "detail": dict(d, mask=mask)})
 
-    def live_uncached():
-        out = []
-        for s in w.rm.walk():
-            for n, (d, cd) in R.members(s)["cells"].items():
-                if (d.path(), n) in unc and (toggled or not toggle):
-                    out.append((s.path(), n))
+    def live_uncached(qs):
+        """(object, description) of every cells that is uncached by the definitions: in static spaces and in
+        the instances the queries visit"""
+        out, seen = [], set()
+        ev = w.evaluator()
+        for q in qs:
+            key = repr(q["inst"])
+            if key in seen:
+                continue
+            seen.add(key)
+            try:
+                inst = ev.inst_from_steps(q["inst"])
+                live = w.live_inst(q["inst"])
+            except Exception:      # noqa
+                continue
+            for n, (d, cd) in R.members(inst.space)["cells"].items():
+                if not cd.cached:
+                    try:
+                        out.append((live.cells[n], inst.evalrepr("M") + "." + n, inst.kind))
+                    except Exception:     # noqa
+                        pass
         return out
 
     first_space = None
@@ -201,26 +224,31 @@ def run_assignment(case, mask):
             qs = c02.all_queries(w)
             points.append(c02.run_queries(w, qs))
             # uncached cells hold no values, run on every call, accept unhashable arguments
-            for sp, n in live_uncached():
+            for c, desc, kind in live_uncached(qs):
+                cnt["uncached_len_checks"] += 1
                 try:
-                    c = w.get_live(sp).cells[n]
+                    flag = c.is_cached
                 except Exception:     # noqa
                     continue
-                if c.is_cached:
-                    continue          # e.g. overridden since
-                cnt["uncached_len_checks"] += 1
+                if flag:
+                    V("flag-not-taken", "a %s cells of an uncached definition is cached"
+                      % {"static": "derived or defined", "item": "dynamic", "dyn": "dynamic"}[kind], cells=desc)
+                    continue
                 if len(c):
-                    V("uncached-holds", "an uncached cells holds values", cells=sp + "." + n, n=len(c))
-                if "(" not in sp:
+                    V("uncached-holds", "an uncached cells holds values", cells=desc, n=len(c))
+                sp, n = desc.rsplit(".", 1)
+                if True:
+                    # (a renamed cells keeps the old name in the probe call inside its source: count any ENTER)
                     n0 = len(w.probe.log)
                     v1 = val(c, 1)
-                    n1 = len([e for e in w.probe.log[n0:] if e[0] == "E" and e[2] == n])
+                    n1 = len([e for e in w.probe.log[n0:] if e[0] == "E"])
+                    m0 = len(w.probe.log)
                     v2 = val(c, 1)
-                    n2 = len([e for e in w.probe.log[n0:] if e[0] == "E" and e[2] == n]) - n1
+                    n2 = len([e for e in w.probe.log[m0:] if e[0] == "E"])
                     cnt["uncached_reexec_checks"] += 1
                     if not (isinstance(v1, tuple) and v1 and v1[0] == "ERR") and (n1 < 1 or n2 < 1):
                         V("uncached-not-run", "an uncached cells did not run its formula on every call",
-                          cells=sp + "." + n, first=n1, second=n2)
+                          cells=desc, first=n1, second=n2)
             if toggle and not toggled:
                 toggled = True
                 for sp, n in sorted(unc):
